@@ -150,6 +150,7 @@ inductive Level
   | prediction      -- prediction().skip(name, on)
   | correction      -- correction().skip(on)            (the name is ignored)
   | stateModel      -- prediction().getStateModel().skip(name, on)   (bypasses the bookkeeping of `pred`)
+  | exoModel        -- prediction().getStateModel().exogenous_model().skip(name, on)   (bypasses state model and prediction)
   deriving DecidableEq, Repr, Inhabited
 
 structure Cmd where
@@ -158,12 +159,20 @@ structure Cmd where
   on : Bool
   deriving DecidableEq, Repr, Inhabited
 
+/-- `getStateModel().exogenous_model().skip(name, on)`: `exogenous_model()` throws when nothing is attached; otherwise
+    `ExogenousModel::skip` answers — `false`, nothing changed, for every name but "exogenous". -/
+def exoModelSkip (st : SkipState) (n : StepName) (on : Bool) : Res :=
+  match st.exo with
+  | none => ⟨st, .thrown⟩
+  | some e => ⟨{ st with exo := some (exoSkip e n on).1 }, .ret (exoSkip e n on).2⟩
+
 def skipCmd (st : SkipState) (c : Cmd) : Res :=
   match c.level with
   | .filter => filterSkip st c.name c.on
   | .prediction => predictionSkip st c.name c.on
   | .correction => correctionSkip st c.on
   | .stateModel => stateModelSkip st c.name c.on
+  | .exoModel => exoModelSkip st c.name c.on
 
 /-- **Hand-over**: the prediction and correction objects are move-constructed into new objects
     held by a new filter.  Every move constructor in the hierarchy moves its base first
